@@ -220,6 +220,9 @@ class AtomTable:
         'job_groups.batch_id = %s': 20,
         'job_group_self_and_ancestors.ancestor_id = %s': 21,
         'job_group_self_and_ancestors.level = 1': 22,
+        '`user` = %s': 30,
+        'JSON_CONTAINS (users , JSON_QUOTE (%s))': 31,
+        'billing_projects.name_cs = %s': 32,
     }
 
     def __init__(self):
@@ -339,6 +342,7 @@ class ListTranslator:
         strs = {}                  # local string variables holding condition templates: name -> Gallina conj or ('flag', f, t, e)
         seen_loop = False
         seen_sql = False
+        alias = None               # name of a string variable holding 'WHERE ' + the joined conditions
         for st in fn.body:
             # where_conditions = [lit, ...]
             if (isinstance(st, (ast.Assign, ast.AnnAssign)) and isinstance(getattr(st, 'value', None), ast.List)
@@ -358,6 +362,16 @@ class ListTranslator:
                     apps = [self._appended(s.value.args[0], strs, fname) for s in st.body if self._is_append(s, wc)]
                     b.flags.append((self._flag_name(st.test), apps, []))
                     continue
+                if isinstance(st, ast.If) and not seen_loop and self._is_where_alias(st, wc):
+                    # if where_conditions: where_condition = f'WHERE {" AND ".join(where_conditions)}'  else: where_condition = ''
+                    # (the list literal is never empty, so the else branch is dead)
+                    alias = st.body[0].targets[0].id
+                    continue
+                if isinstance(st, ast.If) and not seen_loop:
+                    # if / elif / else chain whose branches only append conditions
+                    expr, fl = self._chain(st, wc, strs, fname)
+                    b.flags.append(('chain', expr, fl))
+                    continue
                 if isinstance(st, ast.For) and not seen_loop:
                     seen_loop = True
                     self._loop(b, st, wc, style, fname)
@@ -375,9 +389,11 @@ class ListTranslator:
                     strs[tv[0]] = ('flag', self._flag_name(st.test), self.conj(tv[1]), self.conj(ev[1]))
                     continue
             if isinstance(st, ast.Assign) and self._target(st) == 'sql' and wc is not None:
-                self._check_sql(st.value, wc, fname)
+                self._check_sql(st.value, wc, fname, alias)
                 seen_sql = True
                 continue
+            if alias is not None and self._mentions(st, alias):
+                raise T(fname, f'line {st.lineno}: unsupported use of {alias}')
             if wc is not None and any(isinstance(n, ast.Name) and n.id in strs for n in ast.walk(st)):
                 raise T(fname, f'line {st.lineno}: unsupported use of a condition string')
         if wc is None or not seen_sql:
@@ -385,6 +401,44 @@ class ListTranslator:
         if style != 'fixed' and not seen_loop:
             raise T(fname, 'no loop over the search terms found')
         return b
+
+    def _is_where_alias(self, st, wc):
+        if not (isinstance(st.test, ast.Name) and st.test.id == wc and len(st.body) == 1 and len(st.orelse) == 1):
+            return False
+        a, e = st.body[0], st.orelse[0]
+        if not (isinstance(a, ast.Assign) and isinstance(e, ast.Assign) and self._target(a) and self._target(a) == self._target(e)):
+            return False
+        if _const_str(e.value) != '':
+            return False
+        v = a.value
+        if not (isinstance(v, ast.JoinedStr) and len(v.values) == 2 and isinstance(v.values[0], ast.Constant)
+                and v.values[0].value == 'WHERE ' and isinstance(v.values[1], ast.FormattedValue)):
+            return False
+        j = _is_join(v.values[1].value, ' AND ')
+        return isinstance(j, ast.Name) and j.id == wc
+
+    def _chain(self, st, wc, strs, fname):
+        """if t1: appends.. elif t2: appends.. else: appends..  ->  (Gallina list-of-conjuncts expression, flag names)"""
+        def block(stmts):
+            out = []
+            for s in stmts:
+                if self._is_append(s, wc):
+                    c = self._appended(s.value.args[0], strs, fname)
+                    if isinstance(c, tuple):
+                        raise T(fname, f'line {s.lineno}: flag-selected string inside a conditional append')
+                    out.append(c)
+                elif self._mentions(s, wc):
+                    raise T(fname, f'line {s.lineno}: unsupported use of {wc} inside a conditional')
+            return '[' + '; '.join(out) + ']'
+        name = self._flag_name(st.test)
+        flags = [name]
+        then = block(st.body)
+        if len(st.orelse) == 1 and isinstance(st.orelse[0], ast.If):
+            els, fl = self._chain(st.orelse[0], wc, strs, fname)
+            flags += [f for f in fl if f not in flags]
+        else:
+            els = block(st.orelse)
+        return f'(if {name} then {then} else {els})', flags
 
     @staticmethod
     def _target(st):
@@ -427,23 +481,31 @@ class ListTranslator:
             return strs[0].targets[0].id, _const_str(strs[0].value)
         return None
 
-    def _check_sql(self, node, wc, fname):
+    def _check_sql(self, node, wc, fname, alias=None):
         """The statement text must use the conditions only as `WHERE {' AND '.join(wc)}` followed by ORDER BY / GROUP BY / LIMIT."""
         if not isinstance(node, ast.JoinedStr):
             raise T(fname, 'sql is not an f-string')
         vals = node.values
-        hits = [i for i, v in enumerate(vals) if isinstance(v, ast.FormattedValue) and self._mentions(v, wc)]
-        if len(hits) != 1:
-            raise T(fname, f'{len(hits)} uses of {wc} in the sql template')
-        i = hits[0]
-        j = _is_join(vals[i].value, ' AND ')
-        if not (isinstance(j, ast.Name) and j.id == wc):
-            raise T(fname, f"{wc} is not combined with ' AND '.join")
-        before = vals[i - 1].value if i > 0 and isinstance(vals[i - 1], ast.Constant) else ''
+        if alias is not None:
+            hits = [i for i, v in enumerate(vals) if isinstance(v, ast.FormattedValue) and self._mentions(v, alias)]
+            if len(hits) != 1 or not isinstance(vals[hits[0]].value, ast.Name) or any(
+                    isinstance(v, ast.FormattedValue) and self._mentions(v, wc) for v in vals):
+                raise T(fname, f'unsupported use of {alias} / {wc} in the sql template')
+            i = hits[0]
+            before = 'WHERE '
+        else:
+            hits = [i for i, v in enumerate(vals) if isinstance(v, ast.FormattedValue) and self._mentions(v, wc)]
+            if len(hits) != 1:
+                raise T(fname, f'{len(hits)} uses of {wc} in the sql template')
+            i = hits[0]
+            j = _is_join(vals[i].value, ' AND ')
+            if not (isinstance(j, ast.Name) and j.id == wc):
+                raise T(fname, f"{wc} is not combined with ' AND '.join")
+            before = vals[i - 1].value if i > 0 and isinstance(vals[i - 1], ast.Constant) else ''
         after = vals[i + 1].value if i + 1 < len(vals) and isinstance(vals[i + 1], ast.Constant) else ''
         if not re.search(r'\bWHERE\s*$', before):
             raise T(fname, 'the joined conditions are not the whole WHERE clause (text before)')
-        if not re.match(r'\s*(ORDER BY|GROUP BY|LIMIT)\b', after):
+        if not re.match(r'\s*(ORDER BY|GROUP BY|LIMIT\b|;\s*$)', after):
             raise T(fname, 'the joined conditions are not the whole WHERE clause (text after)')
         for k, v in enumerate(vals):
             if k != i and isinstance(v, ast.FormattedValue):
@@ -576,6 +638,12 @@ class ListTranslator:
         flags = []
         parts = ['[' + '; '.join(b.init) + ']']
         for name, then, els in b.flags:
+            if name == 'chain':
+                for f in els:
+                    if f not in flags:
+                        flags.append(f)
+                parts.append(then)
+                continue
             for c in then:
                 if isinstance(c, tuple):       # ('flag', f, t, e): string chosen by a flag
                     if c[1] not in flags:
@@ -602,6 +670,10 @@ BUILDERS = [
     ('batches_v2', 'batch/batch/front_end/query/query_v2.py', 'parse_list_batches_query_v2', 'v2'),
     ('completed', 'batch/batch/front_end/front_end.py', 'get_completed_batches_ordered_by_completed_time', 'fixed'),
     ('billing_jobs', 'batch/batch/front_end/front_end.py', '_query_batch_jobs_for_billing', 'fixed'),
+    # billing read paths
+    ('billing', 'batch/batch/front_end/front_end.py', '_query_billing', 'fixed'),
+    ('bp_with_cost', 'batch/batch/utils.py', 'query_billing_projects_with_cost', 'fixed'),
+    ('bp_without_cost', 'batch/batch/utils.py', 'query_billing_projects_without_cost', 'fixed'),
 ]
 
 
